@@ -57,7 +57,7 @@ def main(argv):
     for servers in server_sets:
         for pfx in (b"", b"app:"):
             for pooling in (False, True):
-                for rep in range(6 if ctx.thorough else 2):
+                for rep in range(30 if ctx.thorough else 6):
                     S = Scripted(rng)
                     hc = HashClient(servers, socket_module=S.sm, key_prefix=pfx, use_pooling=pooling, default_noreply=False, retry_attempts=0, dead_timeout=0)
                     names = sorted(hc.clients.keys())
